@@ -23,6 +23,8 @@ pub fn specs() -> Vec<CfgSpec> {
     vec![
         f(0), f(O_TKAR | O_PSUGG), f(O_ENG), f(O_SQ | O_PSUGG), f(O_ANSI), f(O_TKAR | O_ENG | O_SQ), f(O_TKAR | O_ENG | O_SQ | O_ANSI), f(O_ENG | O_SQ),
         f(O_KARORDER | O_PSUGG), f(O_KARORDER | O_ENG | O_TKAR), f(O_VOWEL | O_CHANDRA | O_REPH | O_ENG),
+        // number pad off: the number-pad keys are ignored, also in the record of raw keys
+        CfgSpec::new(Lay::Probhat, O_FSUGG | O_ENG), CfgSpec::new(Lay::Probhat, O_FSUGG | O_ENG | O_SQ | O_TKAR),
     ]
 }
 
@@ -86,6 +88,7 @@ pub struct Tally {
     pub inner: u64,
     pub after_slip: u64,
     pub marks_only: u64,
+    pub pad_ignored: u64,
     pub c: HashMap<&'static str, (u64, u64)>,
 }
 impl Tally {
@@ -113,6 +116,7 @@ impl Tally {
         out.count("words_without_single_code_point_keys_skipped", self.nokey);
         out.count("texts_with_punctuation_inside_the_word", self.inner);
         out.count("compositions_of_marks_only", self.marks_only);
+        out.count("words_with_an_ignored_number_pad_key_inside", self.pad_ignored);
         out.count("words_typed_after_an_aborted_composition_of_waiting_signs", self.after_slip);
         out.count("texts_composed_differently_than_meant", self.untypeable);
         for (k, (ch, nv)) in &self.c {
@@ -131,7 +135,9 @@ fn case_json(spec: &CfgSpec, keys: &[FKey], upto: usize) -> Value {
 #[allow(clippy::too_many_arguments)]
 pub fn judge_list(o: &PhonOracle, spec: &CfgSpec, keys: &[FKey], upto: usize, aux: &str, list: &[String], out: &mut Out, t: &mut Tally) {
     t.lists += 1;
-    let raw: String = keys[..upto].iter().map(|k| k.2).collect();
+    // (a key the layout ignores - a number-pad key while the number pad is off - carries the character NUL here: it is no
+    // part of the raw key text)
+    let raw: String = keys[..upto].iter().map(|k| k.2).filter(|c| *c != '\0').collect();
     let (lead, word, trail) = split(aux, true);
     let (pre, post) = if spec.has(O_SQ) && !word.is_empty() { (curl_open(&lead), curl_close(&trail)) } else { (lead.clone(), trail.clone()) };
     let tag = |clause: &str| format!("c15:{clause}:{}:wrap={}{}", spec.short(), if lead.is_empty() { "" } else { "L" }, if trail.is_empty() { "" } else { "T" });
@@ -448,9 +454,20 @@ impl Prop for C15 {
                     let head: String = cs[..cut].iter().collect();
                     let tail: String = cs[cut..cs.len().min(cut + 2)].iter().collect();
                     if let (Some(a), Some(pk), Some(b)) = (keys_for(&rev, &head), pk, keys_for(&rev, &tail)) {
+                        // every second number-pad mark goes to a context with the number pad *off*: the key is ignored, the
+                        // text is head + tail, and the raw key text must not contain it either
+                        let pad_ignored = u % 3 == 0 && !pad_marks.is_empty() && (u / 3) % 2 == 1;
                         let mut keys = a;
-                        keys.push(pk);
+                        keys.push(if pad_ignored { (pk.0, pk.1, '\0') } else { pk });
                         keys.extend(b);
+                        if pad_ignored {
+                            let (sess, mirror) = &sessions[11 + (u / 6) % 2];
+                            out.begin_case(|| case_json(&sess.spec, &keys, keys.len()));
+                            t.inner += 1;
+                            t.pad_ignored += 1;
+                            type_and_judge(&o, sess, mirror, &keys, &format!("{head}{tail}"), out, &mut t);
+                            continue;
+                        }
                         let (sess, mirror) = &sessions[(wi / step) % 8];
                         out.begin_case(|| case_json(&sess.spec, &keys, keys.len()));
                         t.inner += 1;
@@ -482,8 +499,10 @@ impl Prop for C15 {
         let mut target = String::new();
         for e in &evs {
             if let Ev::Key(k, m, _) = e {
-                keys.push((*k, *m, char_for_key(*k).unwrap_or('?')));
-                target.push_str(lo.value(*k, *m, spec.has(O_NUMPAD)).unwrap_or(""));
+                let val = lo.value(*k, *m, spec.has(O_NUMPAD)).unwrap_or("");
+                // a key without a value under this configuration is ignored, also in the raw key text
+                keys.push((*k, *m, if val.is_empty() { '\0' } else { char_for_key(*k).unwrap_or('?') }));
+                target.push_str(val);
             }
         }
         let mut t = Tally::default();
